@@ -743,6 +743,21 @@ package store
 //@   assert @s.db.Swap: [installed-database-drops-staged-segments] restoredOK && stagingGone && arg0 == tmpP
 //@   assert @s.db.Swap: [fast-restart-marker-removed-before-swap] markerGone
 //@   assert @s.createSnapshotFingerprint: [marker-recreated-only-after-swap] swapped
+// C38: an installed snapshot moves the FSM progress a linearizable read waits for: both targets are
+// signalled with the index of the newest stored snapshot, on the nil-returning path.
+//@   ghost var li0 int = 0
+//@   ghost var liOK bool = false
+//@   ghost var fsmSignalled bool = false
+//@   ghost var appliedSignalled bool = false
+//@   ghost update after @snapshot.LatestIndexTerm: li0 = result0
+//@   ghost update after @snapshot.LatestIndexTerm: liOK = (result2 == nil)
+//@   assert @s.fsmTarget.Signal: [restore-signals-fsm-progress] swapped && liOK && arg0 == li0
+//@   ghost update after @s.fsmTarget.Signal: fsmSignalled = true
+//@   assert @s.appliedTarget.Signal: [restore-signals-applied-progress] swapped && liOK && arg0 == li0
+//@   ghost update after @s.appliedTarget.Signal: appliedSignalled = true
+//@   assert @s.fsmIdx.Store: [restore-index] arg0 == li0
+//@   assert @s.dbAppliedIdx.Store: [restore-applied-index] arg0 == li0
+//@   ensures [restored-means-signalled] retErr == nil ==> (fsmSignalled && appliedSignalled)
 //@   ghost var swapped bool = false
 //@   ghost update after @s.db.Swap: swapped = (result == nil)
 
